@@ -72,6 +72,12 @@ def step (t : List String) : Option String :=
         let cell := (regionOf 0).base + 16
         pure s!"ok {showAddr 2 (sandboxPtrCast 16 (.tvol cell (ptrStore 16 4 cell a)))}"
       else pure s!"ok {showAddr 2 (sandboxPtrCast 16 (.tainted a))}"
+  | ["ccastn", off] | ["rcastn", off] => do
+      -- pointer representation as wide as a host pointer (ABI N), still an offset: the stored bits are translated relative to the cell
+      let a ← addrOf off
+      let cell := (regionOf 0).base + 16
+      let r := sandboxPtrCast 16 (.tvol cell (if a = 0 then 0 else a - (regionOf 0).base))
+      pure (if r = 0 then "ok null" else s!"ok in0:{r - (regionOf 0).base}")
   | ["opqarg", v] => do
       let x ← parseInt? v
       if ¬ (BaseTy.long.app).inRange x then pure "badinput" else
